@@ -1,7 +1,7 @@
 PROP = dict(
     id="C05",
     lean_modules=["TongoProofs.C05"],
-    gen=[],
+    gen=["HashmapKeys"],
     # hm.decode / hm.get: the model's decoder is proved equal to the specification (decode_any_valid, get_spec) on
     # valid trees, and both sides must agree on everything else; a mismatch there is a violation with the line as input
     spec_ops=("hm.decode", "hm.get"),
@@ -14,6 +14,9 @@ PROP = dict(
          "HashmapAugE trees, and every strictly valid Hashmap found in the BOCs of the repo's testdata. "
          "non-trivial = distinct (key type, key set) with >= 2 keys, or a real dictionary",
     trusted_base=[
+        "translator HashmapKeys (harness/cmd/extract/hashmapkeys.go): go/ast over tlb/*.go, exact method-body templates; "
+        "regenerates lean/TongoGen/HashmapKeys.lean (all 137 key types: FixedSize = bits written = bits read, comparison kind) "
+        "with decide-d obligations on every run",
         "hand model lean/TongoModel/Hashmap.lean tied to tlb/hashmap.go by exact correspondence on every run "
         "(hm.build / hm.putkeys / hm.decput / hm.decode / hm.get / hma.decode / hm.minbits)",
         "independent dictionary writer/reader in harness/cmd/vh/c05.go (specTree, specParse) used by the go.* oracles",
